@@ -165,7 +165,8 @@ class PeersDriver(ClientDriver):
         pools = {
             'a': lambda i: f'23.45.{rng.randrange(256)}.{1 + i}',        # one /16 shared by many
             'b': lambda i: f'23.{46 + i % 40}.7.{1 + i}',                # spread
-            'v6': lambda i: f'2a01:4f8:{i % 3:x}:1{rng.randrange(4):x}00::{1 + i:x}',   # shared /56s
+            # shared /56s, mostly different /64s inside them
+            'v6': lambda i: f'2a01:4f8:{i % 3:x}:1{rng.randrange(4):x}{rng.choice([0, 0, 1, 2, 0x7f, 0xff]):02x}::{1 + i:x}',
             'priv': lambda i: rng.choice([f'10.1.2.{1 + i}', f'192.168.1.{1 + i}', f'172.16.5.{1 + i}']),
             'odd': lambda i: rng.choice([f'100.64.{i}.9', f'100.100.{i}.7', f'100.127.255.{1 + i}', '127.0.0.1', f'169.254.1.{1 + i}', '224.0.0.5',
                                          '0.0.0.0', f'198.51.100.{1 + i}', 'fe80::1', '::1', f'fc00::{1 + i:x}']),
@@ -184,6 +185,15 @@ class PeersDriver(ClientDriver):
                 else:
                     ip = f'23.{45 + i % 2}.{i}.{1 + i % 200}'
                     host = ip if i % 3 else f'p{i}.example{i % 3}.org'
+                mp = ModelPeer(self, i, host, ip, 'good')
+                self.models.append(mp)
+                self.by_host[host] = mp
+                self.register(mp)
+                continue
+            if op.get('v6crowd') and i < 5:
+                # motif: several good servers in one IPv6 /56, each in a /64 of its own
+                ip = f'2a01:4f8:7:55{i + 1:02x}::{1 + i:x}'
+                host = ip if i % 2 == 0 else f'p{i}.example{i % 3}.org'
                 mp = ModelPeer(self, i, host, ip, 'good')
                 self.models.append(mp)
                 self.by_host[host] = mp
@@ -215,6 +225,8 @@ class PeersDriver(ClientDriver):
         seeds = rng.sample(self.models, min(len(self.models), op.get('seeds', 3)))
         if op.get('crowd'):
             seeds = self.models[:3] + [m for m in seeds if m.idx >= 3]
+        if op.get('v6crowd'):
+            seeds = self.models[:5] + [m for m in seeds if m.idx >= 5]
         if op.get('big'):
             seeds = self.models[:12]
             for mp in self.models:
@@ -491,7 +503,8 @@ class PeersFamily(SubsFamily):
                     plan.append(dict(op='mine', n=1, ntx=[1], at=at, seed=rng.getrandbits(32)))
             plan.append(dict(op='hours', h=rng.choice([0.5, 1.5, 2.0, 3.5]), dense=rng.random() < 0.5))
         return dict(family='peers', knobs=k, plan=plan,
-                    population=dict(n=npeers, crowd=crowd, big=big, seed=rng.getrandbits(32), seeds=rng.randint(1, 4),
+                    population=dict(n=npeers, crowd=crowd, big=big, v6crowd=(not crowd and not big and rng.random() < 0.25),
+                                    seed=rng.getrandbits(32), seeds=rng.randint(1, 4),
                                     p_onion=rng.choice([0.0, 0.15, 0.5])))
 
 
